@@ -343,9 +343,10 @@ fn build_frame(p: &Plan, k: usize, f: &InFrame, pids: &[Val], rpc_from: &Option<
         "send" => {
             let mut pl = payload("send", k, f.seed);
             let ctl = Val::tuple(vec![Val::int(2), Val::atom(""), target_pid(f.target)]);
-            if f.seed % 8 == 3 && p.client.chunking != Chunking::Byte {
+            if f.seed % 8 == 3 && p.client.chunking != Chunking::Byte && p.cap == 0 {
                 // a frame whose length is a round number (a multiple of 64 KiB or 4 KiB): whoever reads a body
-                // in pieces of such a size meets an empty last piece
+                // in pieces of such a size meets an empty last piece. Only over an unbounded pipe: through a
+                // small one such a frame is in transit for longer than the margin the checkpoints allow
                 let unit = if f.seed % 16 == 3 { 1usize << 16 } else { 1 << 12 };
                 let with = |n: usize| Val::tuple(vec![Val::atom("remote"), Val::atom("send"), Val::int(k as i128), Val::Bin(vec![0x5a; n])]);
                 let have = wire::pass_through(&ctl, Some(&with(0))).len();
